@@ -220,7 +220,9 @@ func verifFLState(f fl.Interface) (free []uint64, pending [][3]uint64) {
 
 // VerifShape serialises the bucket's current B+tree as the cursor sees it
 // (materialised nodes override pages), in prefix form:
-//   L <n> {<hexkey> <hexval> <flags>}*n   |   B <n> {<hexsep> <subtree>}*n
+//
+//	L <n> {<hexkey> <hexval> <flags>}*n   |   B <n> {<hexsep> <subtree>}*n
+//
 // ("-" stands for an empty byte string).
 func (b *Bucket) VerifShape() string {
 	var sb []byte
